@@ -328,32 +328,38 @@ class YP(object):
             break
         q.close()
 
+    def _fact_name_and_args(self, term, builtin):
+        '''returns the name and the argument list of the fact that term stands for.'''
+        term = get_value(term)
+        if isinstance(term, Functor):
+            return term._name, term._args
+        if isinstance(term, Atom):
+            return term._name, []
+        raise YPException('%s: not a fact: %s' % (builtin, term))
+
+    def _find_predicates_or_none(self, name, arity):
+        '''like _find_predicates, but a predicate without facts has no clauses.'''
+        try:
+            return self._find_predicates(name, arity)
+        except YPException:
+            return []
+
     def asserta(self, term):
         '''asserta(Term) adds Term to the facts database at the beginning.'''
-        if isinstance(term, Functor):
-            self.assert_fact(self.atom(term._name), term._args, False)
-        elif isinstance(term, Atom):
-            self.assert_fact(term, [], False)
+        name, args = self._fact_name_and_args(term, 'asserta/1')
+        self.assert_fact(self.atom(name), args, False)
         return YPSuccess()
 
     def assertz(self, term):
         '''assertz(Term) adds Term to the facts database at the end.'''
-        if isinstance(term, Functor):
-            self.assert_fact(self.atom(term._name), term._args)
-        elif isinstance(term, Atom):
-            self.assert_fact(term, [])
+        name, args = self._fact_name_and_args(term, 'assertz/1')
+        self.assert_fact(self.atom(name), args)
         return YPSuccess()
 
     def retract(self, term):
         '''retract(Term) removes all dynamic facts matching Term and backtracks over identical clauses.'''
-        if isinstance(term, Functor):
-            name = term._name
-            args = term._args
-        elif isinstance(term, Atom):
-            name = term
-            args = []
-
-        remaining_clauses = self._find_predicates(name, len(args))[:]
+        name, args = self._fact_name_and_args(term, 'retract/1')
+        remaining_clauses = self._find_predicates_or_none(name, len(args))[:]
         i = 0
         while i < len(remaining_clauses):
             clause = remaining_clauses[i]
@@ -368,14 +374,9 @@ class YP(object):
 
     def retractall(self, term):
         '''retractall(Term) removes all dynamic facts matching Term, without backtracking over identical clauses.'''
-        if isinstance(term, Functor):
-            name = term._name
-            args = term._args
-        elif isinstance(term, Atom):
-            name = term
-            args = []
+        name, args = self._fact_name_and_args(term, 'retractall/1')
         remaining_clauses = []
-        for clause in self._find_predicates(name, len(args)):
+        for clause in self._find_predicates_or_none(name, len(args)):
             match = False
             for cut in clause.match(args):
                     match = True
